@@ -91,6 +91,13 @@ class Ctx:
         d = os.path.join(self.work, "tla")
         if not os.path.isdir(d):
             shutil.copytree(TLA_DIR, d)
+            ov = os.path.join(d, "overrides")
+            # operator overrides (BigNat over java.math.BigInteger): compile unless setup already did
+            for j in [x for x in os.listdir(ov)] if os.path.isdir(ov) else []:
+                if j.endswith(".java") and not os.path.exists(os.path.join(ov, j[:-5] + ".class")):
+                    r = subprocess.run(["javac", "-cp", JAR, "-d", ov, os.path.join(ov, j)], capture_output=True, text=True)
+                    if r.returncode != 0:
+                        raise Infra("javac failed: " + r.stderr[-2000:])
         return d
 
     def tlc(self, module, cfg, workers=1, timeout=900, simulate=None, depth=None, coverage=False,
@@ -162,6 +169,14 @@ class Ctx:
         if (key, what) not in self.known:
             self.known.append((key, what))
             print(line, flush=True)
+
+    def match_known(self, facts):
+        """A finding listed in known_findings.json whose `match` dict is a subset of facts, or None."""
+        for k in self.kf:
+            m = k.get("match", {})
+            if m and all(facts.get(a) == b for a, b in m.items()):
+                return k
+        return None
 
     def sample(self, obj, limit=6):
         if len(self.cov["samples"]) < limit:
